@@ -290,7 +290,10 @@ class TranslatorC(Translator):
                     )
                     count = "bignum_to_uint64(%s)" % arg1
                     if expr.op == "a>>":
-                        out = "bignum_%s(%s, %s)" % (op[expr.op], arg0, count)
+                        # A shift of size - 1 already fills with the sign
+                        out = "bignum_a_rshift(%s, %d, (%s?%s:%d))" % (
+                            arg0, expr.size, in_range, count, expr.size - 1
+                        )
                     else:
                         out = "(%s?bignum_%s(%s, %s):bignum_from_uint64(0))" % (
                             in_range, op[expr.op], arg0, count
